@@ -32,13 +32,20 @@ def decRet (s : String) : Option Ret :=
   else if s == "wrapstanza" then some .wrapStanza else if s == "wrapstream" then some .wrapStream
   else if s == "joineof" then some .joinEof else none
 
+/-- digits of a deadline sequence (`21` = a call with a time in the past, then one in the future) -/
+def decDls (s : String) : List Nat := s.toList.filterMap fun c => if c.isDigit then some (c.toNat - '0'.toNat) else none
+
 /-- flags right after the return value: `c` = closes the output first, `df` / `dp` = sets a
-close deadline in the future / in the past first -/
-def decFlags : List String → Bool × Nat × List String
+close deadline in the future / in the past first, `ds<digits>` = several `SetCloseDeadline`
+calls in that order (1 future, 2 past, 3 near future and wait) -/
+def decFlags : List String → Bool × List Nat × List String
   | "c" :: r => let x := decFlags r; (true, x.2.1, x.2.2)
-  | "df" :: r => let x := decFlags r; (x.1, 1, x.2.2)
-  | "dp" :: r => let x := decFlags r; (x.1, 2, x.2.2)
-  | r => (false, 0, r)
+  | "df" :: r => let x := decFlags r; (x.1, 1 :: x.2.1, x.2.2)
+  | "dp" :: r => let x := decFlags r; (x.1, 2 :: x.2.1, x.2.2)
+  | f :: r =>
+    if f.startsWith "ds" then let x := decFlags r; (x.1, decDls f ++ x.2.1, x.2.2)
+    else (false, [], f :: r)
+  | [] => (false, [], [])
 
 /-- `m<k>` after the other flags: the handler edits its start element in place (edit number k) -/
 def decMut : List String → Nat × List String
@@ -57,7 +64,7 @@ def decProg (s : String) : Option Prog :=
     let fl := decFlags rest
     let mu := decMut fl.2.2
     let ops ← mapM? decOp mu.2
-    pure { ops := ops, ret := r, close := fl.1, dl := fl.2.1, edit := mu.1 }
+    pure { ops := ops, ret := r, close := fl.1, dls := fl.2.1, edit := mu.1 }
   | [] => none
 
 def decProgs (s : String) : Option (List Prog) :=
@@ -128,13 +135,15 @@ Serve starts (`closed` = 1) or a program closes it (`ret,c,op…`) -/
 def handleServeX (args : List String) : Option Out :=
   match args with
   | [cl, ns, lb, jm, toks, progs] => do
-    let cl ← parseBool cl
+    -- `0` / `1`, optionally followed by `d<digits>`: SetCloseDeadline calls before Serve
+    let pre := decDls (cl.drop 1).toString
+    let cl ← parseBool (cl.take 1).toString
     let ns ← decNs ns
     let lb ← unhexF (if lb == "-" then "" else lb)
     let jm ← decJidMap jm
     let toks ← decToks toks
     let progs ← decProgs progs
-    pure (serveC { ns := ns, localBare := lb, jidCanon := jidOracle jm } cl toks progs)
+    pure (serveCD { ns := ns, localBare := lb, jidCanon := jidOracle jm } cl pre toks progs)
   | _ => none
 
 /-- `servew <left> <ns> <localBare> <jidmap> <toks> <progs>`: the connection accepts `left` more writes -/
